@@ -272,6 +272,7 @@ class C09(Prop):
                 jump = case["jump"] if case.get("jump") is not None else rj.choice([0, 0, 2, 61, 420, 7200, -3, -900])
                 if jump:
                     traveller.shift(jump)
+                    env.idle(abs(jump) + 1)     # idle in real (monotonic) time too, not only on the wall clock
                     acc.count("operations_after_a_clock_jump")
                 rec = await cl.run(op, args, self.remotes.get(remote_kind))
                 await td.settle(cl.conn, sum(len(w) for w in rec.writes))
